@@ -110,6 +110,8 @@ bytes hash_string(int alg, const bytes &m);
 bytes hash_filebuf(int alg, const bytes &file, size_t pos, int refill_units, const bytes *prefix64);
 // synthetic stream of `len` bytes (byte i = pattern(i)) through a buffer64 subclass, no file involved
 bytes hash_synth(int alg, uint64_t len, uint32_t pat);
+// the same synthetic message materialised in memory and given to the in-memory entry point (len < 2^32)
+bytes hash_string_synth(int alg, uint64_t len, uint32_t pat);
 inline uint8_t synth_byte(uint64_t i, uint32_t pat) { return (uint8_t)((i * 2654435761ull + pat) >> 7 ^ (i >> 20)); }
 int hash_len(int alg);
 int refill_capacity();
